@@ -15,7 +15,7 @@ def nontrivial(case, s, infos):
     return False
 
 
-check_case, run, replay = gfi_hist.make_prop(CFG, CHECKS, kinds=TOP, nontrivial=nontrivial, examples=(9, 9))
+check_case, run, replay = gfi_hist.make_prop(CFG, CHECKS, kinds=TOP, nontrivial=nontrivial, examples=(6, 6))
 
 
 # ------------------------------------------------------------------------------------------------
